@@ -55,6 +55,14 @@ def spec_cfgs(tier: str) -> List[Any]:
         two += [g for g in dg.grammars("two") if g not in two and len(g[1]) == 1][:200]
     for g in list(gs) + two:
         res.append(GCfg(g, (), "g", "RuleDB"))
+    # regular languages decomposed from the left or from the right (R-domain): mirror images and
+    # letter swaps give many isomorphic pairs whose bijection is not the identity on words
+    from mc import domain_r as dr
+    from mc.search import RCfg
+
+    for d in dr.languages(2):
+        for pk in ("rL", "rR") if tier == "quick" else ("rL", "rR", "r", "r2R"):
+            res.append(RCfg.of(d, pk, "RuleDB"))
     return res
 
 
